@@ -216,9 +216,15 @@ New(t, d) ==
           /\ UNCHANGED <<tp, stk, tk, lazy>>
           /\ Log([op |-> "new", t |-> t, i |-> i, f |-> f, d |-> d, root |-> BeginA(t, i, d).root], <<>>)
 
+\* Quantifier restriction: a frame that carries no trace (Frame::current taken outside any
+\* trace, an invalid header) is only entered outside any trace.  Whether such a frame hides
+\* the trace it is entered in is not said by the statement.
+EnterOK(t, f) == fr[f].a.k = "none" => LCtx(t).k = "none"
+
 Enter(t, f) ==
     /\ fr[f].st = "idle"
     /\ Len(stk[t]) < MaxDepth
+    /\ EnterOK(t, f)
     /\ Push(t, f, IF fr[f].i # 0 THEN "span" ELSE "guard", 0)
     /\ fr' = [fr EXCEPT ![f].st = "in", ![f].slot = EnterSlot(t, f)]
     /\ em' = <<>>
@@ -288,6 +294,7 @@ PollLazy(t, k, d) ==
 Poll(t, k) ==
     /\ tk[k].st = "idle" /\ ~lazy[k]
     /\ Len(stk[t]) < MaxDepth
+    /\ EnterOK(t, tk[k].f)
     /\ Push(t, tk[k].f, "poll", k)
     /\ fr' = [fr EXCEPT ![tk[k].f].st = "in", ![tk[k].f].slot = EnterSlot(t, tk[k].f)]
     /\ tk' = [tk EXCEPT ![k].st = "run"]
